@@ -287,7 +287,7 @@ def holesPlacedT (shell : Ring) : Poly → Poly → Bool
   | pre, h :: rest => ringPlacedT h (some shell) (pre ++ rest) && holesPlacedT shell (pre ++ [h]) rest
 
 /-- Valid polygon whose rings may touch in single points, written shell :: holes in open spelling.
-Every `ValidPoly` is a `ValidPolyT`. -/
+(The judge tries `ValidPoly` first and this class second.) -/
 def ValidPolyT : Poly → Bool
   | [] => false
   | shell :: holes =>
